@@ -5,3 +5,4 @@ pub mod budget;
 pub mod adaptive;
 pub mod retry;
 pub mod backoff;
+pub mod reconnect;
